@@ -122,3 +122,129 @@ type vfCountListener struct{ accepts int }
 func (l *vfCountListener) Accept() (net.Conn, error) { l.accepts++; return nil, net.ErrClosed }
 func (l *vfCountListener) Close() error              { return nil }
 func (l *vfCountListener) Addr() net.Addr            { return nil }
+
+//vf:assume C11-overlap: three connections in different phases in one schedule: A has a request at the origin when Shutdown is called (context already cancelled, so Shutdown returns at once with the context's error); B was served completely before (optional); C is handed to the connection loop after shutdown began; A's response is then delivered; the phases are nested calls, not goroutines
+
+//vf:harness property=C11 nopanic reach=overlap-b-before,overlap-no-b,overlap-a-has-second-request steps=8000000
+func vfH_C11_overlap() {
+	rt := &vfRT{}
+	p := &Proxy{RoundTripper: rt, WithoutWarning: true}
+	p.init()
+	reqA := "GET http://example.com/a HTTP/1.1\r\nHost: example.com\r\n\r\n"
+	wireA := reqA
+	aSecond := vfrt.Choice("a-has-a-queued-second-request", 2) == 1
+	if aSecond {
+		vfrt.Reach("overlap-a-has-second-request")
+		wireA += "GET http://example.com/a2 HTTP/1.1\r\nHost: example.com\r\n\r\n"
+	}
+	connA := NewVfConn([]byte(wireA))
+	connB := NewVfConn([]byte("GET http://example.com/b HTTP/1.1\r\nHost: example.com\r\n\r\n"))
+	connC := NewVfConn([]byte("GET http://example.com/c HTTP/1.1\r\nHost: example.com\r\n\r\n"))
+	bBefore := vfrt.Choice("b-served-before-shutdown", 2) == 1
+	cancelled, cancel := context.WithCancel(context.Background())
+	cancel()
+	var during, during2 error
+	var openDuring int32
+	cOut, cClosed := -1, 0
+	inHook := false
+	rt.hook = func(n int) {
+		if inHook || rt.paths[len(rt.paths)-1] != "/a" {
+			return
+		}
+		inHook = true
+		if bBefore {
+			vfrt.Reach("overlap-b-before")
+			p.handleLoop(connB)
+		} else {
+			vfrt.Reach("overlap-no-b")
+		}
+		// shutdown is requested while A's request is at the origin
+		during = p.Shutdown(cancelled)
+		openDuring, _ = VfOpenConns(p)
+		// a connection accepted in the meantime is closed without service
+		p.handleLoop(connC)
+		cOut, cClosed = connC.Out.Len(), connC.Closed
+		during2 = p.Shutdown(cancelled)
+		inHook = false
+	}
+	p.handleLoop(connA)
+
+	vfrt.Assert(during == context.Canceled && during2 == context.Canceled, "overlap/shutdown-does-not-report-success-while-a-served-connection-remains")
+	vfrt.Assert(openDuring == 1, "overlap/exactly-the-connection-in-service-is-counted-open")
+	vfrt.Assert(cOut == 0 && cClosed >= 1, "overlap/connection-accepted-during-shutdown-closed-without-service")
+	if bBefore {
+		res, err := http.ReadResponse(bufio.NewReader(bytes.NewReader(connB.Out.Bytes())), &http.Request{Method: "GET"})
+		vfrt.Assert(err == nil && res.StatusCode == 200 && connB.Closed >= 1, "overlap/connection-finished-before-shutdown-was-served")
+	}
+	// A: the in-flight exchange completes, announces close, nothing further is forwarded, the socket is closed
+	br := bufio.NewReader(bytes.NewReader(connA.Out.Bytes()))
+	res, err := http.ReadResponse(br, &http.Request{Method: "GET"})
+	vfrt.Assert(err == nil && res.StatusCode == 200, "overlap/in-flight-response-delivered")
+	if err == nil {
+		body, _ := io.ReadAll(res.Body)
+		vfrt.Assert(string(body) == "ok" && res.Close, "overlap/in-flight-response-complete-and-announces-close")
+		_, perr := br.Peek(1)
+		vfrt.Assert(perr == io.EOF, "overlap/nothing-after-the-in-flight-response")
+	}
+	want := 1
+	if bBefore {
+		want = 2
+	}
+	vfrt.Assert(rt.calls == want, "overlap/no-request-forwarded-after-shutdown-began")
+	for _, path := range rt.paths {
+		vfrt.Assert(path == "/a" || path == "/b", "overlap/only-requests-sent-before-shutdown-reach-the-origin")
+	}
+	vfrt.Assert(connA.Closed >= 1, "overlap/served-connection-closed-after-its-exchange")
+	open, reg := VfOpenConns(p)
+	vfrt.Assert(open == 0 && reg == 0, "overlap/open-connection-count-returns-to-zero")
+	vfrt.Assert(p.Shutdown(context.Background()) == nil, "overlap/shutdown-succeeds-once-every-connection-finished")
+}
+
+//vf:assume C11-tunnel: a CONNECT tunnel is established when shutdown begins (at the target's first or second read); the tunnel carries 0..2 symbolic bytes each way
+
+//vf:harness property=C11 nopanic reach=tunnel-shutdown-first-read,tunnel-shutdown-second-read steps=8000000
+func vfH_C11_tunnel() {
+	rt := &vfRT{}
+	p := &Proxy{RoundTripper: rt, WithoutWarning: true}
+	p.init()
+	up := vfrt.Bytes("client-payload", vfrt.Choice("client-len", 3))
+	down := vfrt.Bytes("target-payload", vfrt.Choice("target-len", 3))
+	target := NewVfConn(down)
+	target.Chunk = 1
+	p.DialContext = func(context.Context, string, string) (net.Conn, error) { return target, nil }
+	client := NewVfConn(append([]byte("CONNECT example.com:443 HTTP/1.1\r\nHost: example.com:443\r\n\r\n"), up...))
+	at := 1 + vfrt.Choice("shutdown-at-target-read", 2)
+	began := false
+	var openDuring int32
+	target.OnRead = func(call int) {
+		if call == at {
+			began = true
+			VfBeginClosing(p)
+			openDuring, _ = VfOpenConns(p)
+		}
+	}
+	p.handleLoop(client)
+	if !began {
+		return // fewer reads than the chosen placement
+	}
+	if at == 1 {
+		vfrt.Reach("tunnel-shutdown-first-read")
+	} else {
+		vfrt.Reach("tunnel-shutdown-second-read")
+	}
+	vfrt.Assert(openDuring == 1, "tunnel/tunnelled-connection-counted-open-during-shutdown")
+	// the exchange that had reached its target completes normally: both directions are delivered in full
+	vfrt.Assert(bytes.Equal(target.Out.Bytes(), up), "tunnel/client-bytes-delivered-in-full")
+	br := bufio.NewReader(bytes.NewReader(client.Out.Bytes()))
+	res, err := http.ReadResponse(br, &http.Request{Method: "CONNECT"})
+	vfrt.Assert(err == nil && res.StatusCode == 200, "tunnel/2xx-reply")
+	if err == nil {
+		rest := make([]byte, br.Buffered())
+		br.Read(rest)
+		vfrt.Assert(bytes.Equal(rest, down), "tunnel/target-bytes-delivered-in-full")
+	}
+	vfrt.Assert(client.Closed >= 1 && target.Closed >= 1, "tunnel/both-sockets-closed-afterwards")
+	open, reg := VfOpenConns(p)
+	vfrt.Assert(open == 0 && reg == 0, "tunnel/open-connection-count-returns-to-zero")
+	vfrt.Assert(p.Shutdown(context.Background()) == nil, "tunnel/shutdown-succeeds-once-drained")
+}
